@@ -42,7 +42,142 @@ def init():
     from skoolkit import skoolasm, skoolhtml, skoolmacro, SkoolParsingError, SkoolKitError
     from skoolkit import skool2asm
 
+PLACE_SKOOL = """@start
+@assemble=2,2
+@set-line-width=30000
+{expands}; zqa:{t}:zqb
+;
+; zqc:{t}:zqd
+;
+; A zqe:{t}:zqf
+c32768 LD A,1        ; zqg:{t}:zqh
+; zqi:{t}:zqj
+ 32770 RET           ; done
+; zqk:{t}:zql
+
+; Data
+b32771 DEFB {data}
+t32800 DEFM "Hello world",0
+ 32812 DEFM "Tw","o"+128
+"""
+
+def gen_placement(rng, tier, index):
+    return {'kind': 'placement', 'gseed': rng.getrandbits(48), 'npre': rng.choice((0, 1, 2, 4, 6)), 'base': rng.choice((0, 0, 10, 16)), 'case': rng.choice((0, 0, 1, 2)),
+            'data': [rng.randrange(256) for _ in range(24)], 'depth': rng.choice((1, 2, 3, 3, 4))}
+
+def _ws(s):
+    return ' '.join(s.replace('\xa0', ' ').split())
+
+def run_placement(scn, res, wd):
+    """The same reading term placed in an entry title, description, register description, instruction comment,
+    mid-block comment and block end comment of a skool file, expanded by skool2asm.main and skool2html.main; the state
+    it depends on is established by @expand directives (run once by each writer)."""
+    import re
+    from skoolkit import skool2asm, skool2html
+    skoolmacro._map_cache.clear()
+    data = ','.join(str(b) for b in scn['data'])
+    # model memory = what the parser assembles from the skeleton
+    sf0 = os.path.join(wd, 'probe.skool')
+    with open(sf0, 'w') as f:
+        f.write(PLACE_SKOOL.format(expands='', t='x', data=data))
+    mem0 = bytes(SkoolParser(sf0, asm_mode=1).snapshot[0:65536])
+    model = refmacro.Model(mem0, scn['base'], scn['case'], 0)
+    pre, term = scn.get('pre'), scn.get('term')
+    if term is None:
+        rng = random.Random(scn['gseed'])
+        pre = []
+        tries = 0
+        while len(pre) < scn['npre'] and tries < 60:
+            tries += 1
+            tree = refmacro.Gen(rng, model).step(scn['depth'])
+            if tree[0] not in ('let', 'lets', 'letd', 'letk', 'pokes', 'def'):
+                continue
+            trial = copy.deepcopy(model)
+            try:
+                text, _ = trial.apply(json.loads(json.dumps(tree)))
+            except refmacro.Unsupported:
+                continue
+            model = trial
+            pre.append(tree)
+        term = None
+        for _ in range(60):
+            tree = refmacro.Gen(rng, model).S(scn['depth'])
+            if _contains(tree, ('pc', 'while')):
+                continue
+            try:
+                copy.deepcopy(model).apply(json.loads(json.dumps(tree)))
+            except refmacro.Unsupported:
+                continue
+            term = tree
+            break
+        if term is None:
+            res['discard'] = 'no reading term generated'
+            return res
+        scn['pre'], scn['term'] = pre, term
+        model = refmacro.Model(mem0, scn['base'], scn['case'], 0)
+    texts = []
+    try:
+        for tree in pre:
+            texts.append(model.apply(json.loads(json.dumps(tree)))[0])
+        ttext, want = model.apply(json.loads(json.dumps(term)))
+    except refmacro.Unsupported:
+        res['discard'] = 'unsupported after shrinking'
+        return res
+    if '\n' in ttext or any('\n' in t for t in texts):
+        res['discard'] = 'newline in text'
+        return res
+    sf = os.path.join(wd, 'test.skool')
+    with open(sf, 'w') as f:
+        f.write(PLACE_SKOOL.format(expands=''.join('@expand=%s\n' % t for t in texts), t=ttext, data=data))
+    opts = {0: [], 10: ['-D'], 16: ['-H']}[scn['base']] + {0: [], 1: ['-l'], 2: ['-u']}[scn['case']]
+    out = io.StringIO()
+    err = io.StringIO()
+    import contextlib
+    try:
+        with contextlib.redirect_stdout(out), contextlib.redirect_stderr(err):
+            skool2asm.main(opts + ['-q', sf])
+        asm_text = out.getvalue()
+        odir = os.path.join(wd, 'html')
+        with contextlib.redirect_stdout(io.StringIO()), contextlib.redirect_stderr(err):
+            skool2html.main(opts + ['-q', '-d', odir, sf])
+    except (SystemExit, Exception) as e:
+        return fail(res, 'C17/placement/error', 'tool raised %s: %s\n  pre: %s\n  term: %s' % (type(e).__name__, e, texts, ttext))
+    html_text = ''
+    for root, dirs, files in os.walk(odir):
+        for fn in files:
+            if fn == '32768.html':
+                html_text = open(os.path.join(root, fn), encoding='utf-8').read()
+    w_ = _ws(want)
+    seen = 0
+    for label, text, unesc in (('asm', asm_text, False), ('html', html_text, True)):
+        for a, b, where in (('zqa:', ':zqb', 'title'), ('zqc:', ':zqd', 'description'), ('zqe:', ':zqf', 'register'), ('zqg:', ':zqh', 'instruction comment'), ('zqi:', ':zqj', 'mid-block comment'), ('zqk:', ':zql', 'end comment')):
+            found = re.findall(a + '(.*?)' + b, text, re.S)
+            if not found:
+                return fail(res, 'C17/placement/%s/missing' % label, '%s output has no %s marker pair\n  term: %s' % (label, where, ttext))
+            for g in found:
+                if unesc:
+                    g = html.unescape(g)
+                else:
+                    g = re.sub(r'\n\s*; ?', ' ', g)
+                seen += 1
+                if _ws(g) != w_:
+                    return fail(res, 'C17/placement/%s' % label, '%s, %s: expansion %r differs from the documented result %r\n  pre: %s\n  term: %s' % (label, where, _ws(g), w_, texts, ttext))
+    bump(res, 'placements_checked', seen)
+    bump(res, 'events', 2)
+    res['sigs'].append('placement|%s|%d|%d' % (macro_name(ttext), scn['base'], scn['case']))
+    res['digest'] = hashlib.sha256((ttext + '|' + w_).encode()).hexdigest()
+    return res
+
+def _contains(tree, kinds):
+    if isinstance(tree, list):
+        if tree and tree[0] in kinds:
+            return True
+        return any(_contains(x, kinds) for x in tree)
+    return False
+
 def gen(rng, tier, index):
+    if index % 6 == 5:
+        return gen_placement(rng, tier, index)
     n = rng.choice((1, 2, 3, 5, 8, 13, 25)) if tier == 'quick' else rng.choice((1, 2, 3, 5, 8, 13, 25, 40))
     return {'kind': 'macro-history', 'gseed': rng.getrandbits(48), 'nsteps': n, 'base': rng.choice((0, 0, 10, 16)), 'case': rng.choice((0, 0, 1, 2)),
             'data': [rng.randrange(256) for _ in range(24)], 'depth': rng.choice((1, 2, 3, 3, 4))}
@@ -72,6 +207,8 @@ def run(scn):
     res = new_result()
     wd = build.workdir()
     try:
+        if scn['kind'] == 'placement':
+            return run_placement(scn, res, wd)
         return _run(scn, res, wd)
     finally:
         shutil.rmtree(wd, ignore_errors=True)
@@ -162,6 +299,8 @@ def _run(scn, res, wd):
     return res
 
 def sample(scn, res):
+    if scn['kind'] == 'placement':
+        return {k: v for k, v in scn.items() if k != 'data'}
     return {'base': scn['base'], 'case': scn['case'], 'ops': scn.get('ops', [])[:6]}
 
 def _simplify(tree):
@@ -180,6 +319,18 @@ def _simplify(tree):
                 yield c
 
 def shrink_candidates(scn):
+    if scn['kind'] == 'placement':
+        def cpp():
+            return json.loads(json.dumps(scn))
+        for i in range(len(scn.get('pre') or [])):
+            c = cpp(); del c['pre'][i]; yield c
+        k = 0
+        for s_ in _simplify(scn.get('term')):
+            k += 1
+            if k > 40:
+                break
+            c = cpp(); c['term'] = s_; yield c
+        return
     ops = scn.get('ops') or []
     def cp(newops):
         c = json.loads(json.dumps(scn)); c['ops'] = newops; return c
